@@ -7,7 +7,8 @@ package dag
 // Every DID document version the generator publishes through an admitted transaction is fed into the store with
 // didstore.Add, as the did:nuts ambassador would. The generator's own record of the versions (which keys, produced by which
 // transaction, deactivated or not) stays the ground truth for "the key its key id denoted in the signer's DID document as of
-// the referenced transactions": admitted => one of the prevs produced a version that lists the key and is not deactivated.
+// the referenced transactions": admitted => the NEWEST version of the signer's document produced by one of the prevs lists the key
+// and is not deactivated (prevs may span several versions, in any order).
 
 import (
 	"context"
@@ -46,7 +47,7 @@ func c06GenRealOffer(t *rapid.T) c06Offer {
 		o.V = rapid.SampledFrom([]string{"rotate", "rotate", "addkey", "addkey", "removekey", "deactivate-keep-vm", "deactivate-keep-vm", "deactivate"}).Draw(t, "didop")
 	case "didtx":
 		o.V = rapid.SampledFrom([]string{"vouched", "vouched", "unvouched", "removed-vouched", "removed-unvouched", "future-key-old-version",
-			"deactivated-version", "deactivated-version"}).Draw(t, "didtx")
+			"deactivated-version", "deactivated-version", "span-versions", "span-versions", "span-versions"}).Draw(t, "didtx")
 	}
 	return o
 }
